@@ -357,9 +357,9 @@ def attack_one(fx, P, ser, phase, label, data, ending, stall, rec, cfgkey):
 
 
 def run_config(P, cfg, rec, r, n_items):
-    fx = fixture.Fixture(servertype=cfg["servertype"], COMMTIMEOUT=cfg["commtimeout"], THREADPOOL_SIZE=cfg["pool"], THREADPOOL_SIZE_MIN=2, ITER_STREAMING=True,
+    fx = fixture.Fixture(servertype=cfg["servertype"], unix=cfg.get("unix", False), COMMTIMEOUT=cfg["commtimeout"], THREADPOOL_SIZE=cfg["pool"], THREADPOOL_SIZE_MIN=2, ITER_STREAMING=True,
                          ITER_STREAM_LINGER=0.2, ITER_STREAM_LIFETIME=1.0)      # abandoned streams expire (housekeeping) while the attack is still going on
-    cfgkey = "%s/%s/%s" % (cfg["servertype"], cfg["commtimeout"], cfg["pool"])
+    cfgkey = "%s/%s/%s%s" % (cfg["servertype"], cfg["commtimeout"], cfg["pool"], "/unix" if cfg.get("unix") else "")
     pay = {"cfg": cfg}
     try:
         fx.register(make_service(P), "svc")
@@ -481,6 +481,9 @@ def plan(tier, seed):
     # make workers finish while new connections are being accepted
     cfgs.append({"servertype": "thread", "pool": 40, "commtimeout": 0.0, "inject": True})
     cfgs.append({"servertype": "thread", "pool": 3, "commtimeout": 0.0, "inject": True})
+    # daemons on a unix domain socket
+    cfgs.append({"servertype": "multiplex", "pool": 40, "commtimeout": 0.0, "unix": True})
+    cfgs.append({"servertype": "thread", "pool": 40, "commtimeout": 0.6, "unix": True})
     reps = 1 if tier == "quick" else 6
     n = 420 if tier == "quick" else 0
     return [{"cfg": c, "rep": i, "n_items": n} for c in cfgs for i in range(reps)]
